@@ -749,6 +749,34 @@ func reverseLoop(m *core.Model, loop ast.Node) (ast.Expr, *ast.BlockStmt, bool) 
 	return nil, nil, false
 }
 
+// stdSearchOver: call searches all elements of the slice field with the given key through a standard helper
+// (slices.Index, IndexFunc, Contains, ContainsFunc - whatever name the package is imported under).
+func stdSearchOver(m *core.Model, call *ast.CallExpr, key string) bool {
+	sel, ok := ast.Unparen(call.Fun).(*ast.SelectorExpr)
+	if !ok || len(call.Args) < 2 {
+		if ix, isIx := ast.Unparen(call.Fun).(*ast.IndexExpr); isIx {
+			sel, ok = ast.Unparen(ix.X).(*ast.SelectorExpr)
+		}
+		if !ok || len(call.Args) < 2 {
+			return false
+		}
+	}
+	id, ok := sel.X.(*ast.Ident)
+	if !ok {
+		return false
+	}
+	pn, ok := m.Info.ObjectOf(id).(*types.PkgName)
+	if !ok || pn.Imported().Path() != "slices" {
+		return false
+	}
+	switch sel.Sel.Name {
+	case "Index", "IndexFunc", "Contains", "ContainsFunc":
+	default:
+		return false
+	}
+	return fieldKeyOf(m, call.Args[0]) == key
+}
+
 // truthAt reports what is known about the atom selected by isAtom at the point where target (a node of f's body) is
 // evaluated: +1 the atom holds on every path reaching it, -1 it fails on every path, 0 otherwise (unknown, or target
 // not found). Knowledge comes from the branch conditions passed on the way (if, for, &&, ||, !), joined over paths.
@@ -918,6 +946,11 @@ func DropCachesExcept(keep []*core.Model) {
 			delete(queryOwnedCache, m)
 		}
 	}
+	for m := range scratchOwnerCache {
+		if !kept[m] {
+			delete(scratchOwnerCache, m)
+		}
+	}
 	for m := range tableRolesCache {
 		if !kept[m] {
 			delete(tableRolesCache, m)
@@ -942,4 +975,119 @@ func DropCachesExcept(keep []*core.Model) {
 		}
 	}
 	core.DropCachesExcept(kept)
+}
+
+var scratchOwnerCache = map[*core.Model]map[string]bool{}
+
+// isScratchOwner reports whether owner is the storage's scratch struct ("slices") or a struct type of package ecs
+// that is used as a field type only inside scratch structs (the scratch lists regrouped into nested structs).
+func isScratchOwner(m *core.Model, owner string) bool {
+	set, ok := scratchOwnerCache[m]
+	if !ok {
+		set = map[string]bool{"slices": true}
+		sc := m.Prog.Ecs.Types.Scope()
+		usedIn := map[string]map[string]bool{}
+		for _, name := range sc.Names() {
+			tn, ok := sc.Lookup(name).(*types.TypeName)
+			if !ok || tn.IsAlias() {
+				continue
+			}
+			st, ok := tn.Type().Underlying().(*types.Struct)
+			if !ok {
+				continue
+			}
+			for i := 0; i < st.NumFields(); i++ {
+				ft := st.Field(i).Type()
+				if p, ok := ft.(*types.Pointer); ok {
+					ft = p.Elem()
+				}
+				if n, ok := ft.(*types.Named); ok && n.Obj().Pkg() == m.Prog.Ecs.Types && !n.Obj().Exported() {
+					if _, ok := n.Underlying().(*types.Struct); ok {
+						if usedIn[n.Obj().Name()] == nil {
+							usedIn[n.Obj().Name()] = map[string]bool{}
+						}
+						usedIn[n.Obj().Name()][name] = true
+					}
+				}
+			}
+		}
+		for changed := true; changed; {
+			changed = false
+			for t, owners := range usedIn {
+				if set[t] {
+					continue
+				}
+				all := true
+				for o := range owners {
+					if !set[o] {
+						all = false
+					}
+				}
+				if all {
+					set[t] = true
+					changed = true
+				}
+			}
+		}
+		scratchOwnerCache[m] = set
+	}
+	return set[owner]
+}
+
+// listElemOf returns the element type of a list: of a slice, or of a struct that wraps a slice of named structs (a
+// list type with its own methods).
+func listElemOf(t types.Type) types.Type {
+	switch u := t.Underlying().(type) {
+	case *types.Slice:
+		return u.Elem()
+	case *types.Struct:
+		for i := 0; i < u.NumFields(); i++ {
+			if sl, ok := u.Field(i).Type().Underlying().(*types.Slice); ok {
+				if _, isStruct := sl.Elem().Underlying().(*types.Struct); isStruct {
+					return sl.Elem()
+				}
+			}
+		}
+	}
+	return nil
+}
+
+// appendOf returns the append call that e is: a call of the builtin, or a call of a one-statement function (a method
+// of a list type: `func (l list) add(o T) list { return append(l, o) }`) that returns an append to its receiver or
+// first parameter. nil otherwise.
+func appendOf(m *core.Model, e ast.Expr) *ast.CallExpr {
+	call, ok := ast.Unparen(e).(*ast.CallExpr)
+	if !ok {
+		return nil
+	}
+	if m.IsBuiltin(call, "append") {
+		return call
+	}
+	k, cal, _ := m.Callee(call)
+	if k != core.CallStatic || cal == nil || cal.Body == nil || len(cal.Body.List) != 1 {
+		return nil
+	}
+	rs, ok := cal.Body.List[0].(*ast.ReturnStmt)
+	if !ok || len(rs.Results) != 1 {
+		return nil
+	}
+	inner, ok := ast.Unparen(rs.Results[0]).(*ast.CallExpr)
+	if !ok || !m.IsBuiltin(inner, "append") || len(inner.Args) == 0 {
+		return nil
+	}
+	id, ok := ast.Unparen(inner.Args[0]).(*ast.Ident)
+	if !ok {
+		return nil
+	}
+	v, _ := m.Info.ObjectOf(id).(*types.Var)
+	if v == nil || cal.Sig == nil {
+		return nil
+	}
+	if r := cal.Sig.Recv(); r != nil && r == v {
+		return inner
+	}
+	if cal.Sig.Params().Len() > 0 && cal.Sig.Params().At(0) == v {
+		return inner
+	}
+	return nil
 }
